@@ -240,6 +240,16 @@ func replayOne(rf *vstat.ReplayFile) string {
 		}
 		return ""
 	}
+	if rf.Property == "C09" && rf.Part == "wide" {
+		var sc wideScenario
+		if err := json.Unmarshal(rf.Scenario, &sc); err != nil {
+			return "bad scenario: " + err.Error()
+		}
+		if _, err := runWide(&sc); err != nil {
+			return err.Error()
+		}
+		return ""
+	}
 	if rf.Property == "C09" && rf.Part == "callback" {
 		var sc cbScenario
 		if err := json.Unmarshal(rf.Scenario, &sc); err != nil {
